@@ -70,26 +70,31 @@ RECURSIVE FirstHas(_, _)
 FirstHas(s, l) == IF s = <<>> THEN "none" ELSE IF l[Head(s)] = "has" THEN Head(s) ELSE FirstHas(Tail(s), l)
 
 CacheQuery ==
+  LET c == FirstHas(Search, NewListed)     \* what the mtime-keyed listings give for this $PATH
+      upd == [d \in Dirs |-> IF d \in Refreshed THEN TRUE ELSE fresh[d]]
+  IN
   /\ act' = Lab("query", "", "")
   /\ UNCHANGED <<fs, path>>
-  /\ \/ \* every view of the cache agrees with the file system
+  /\ \/ \* the listings are accurate: every view of the cache agrees with the file system
+        /\ c = PosixWhich
+        /\ listed' = NewListed /\ fresh' = upd /\ cmds' = c
+        /\ res' = [NoRes EXCEPT !.cached = c, !.inn = (c # "none"), !.listing = (c # "none")]
+     \/ \* a listing is out of date (chmod): a conformant cache notices and re-reads the directories
+        /\ c # PosixWhich
         /\ listed' = [d \in Dirs |-> IF d \in Range(Search) THEN (IF fs[d] = "exec" THEN "has" ELSE "hasnot") ELSE NewListed[d]]
         /\ fresh' = [d \in Dirs |-> IF d \in Range(Search) THEN TRUE ELSE fresh[d]]
         /\ cmds' = PosixWhich
         /\ res' = [NoRes EXCEPT !.cached = PosixWhich, !.inn = (PosixWhich # "none"), !.listing = (PosixWhich # "none")]
-     \/ \* an edit of $PATH (reorder / removal) with unchanged directory mtimes is not noticed
-        /\ "Dev_PathEditUnnoticed" \in Deviations
-        /\ Refreshed = {} /\ cmds # FirstHas(Search, listed)
-        /\ UNCHANGED <<listed, fresh, cmds>>
-        /\ res' = [NoRes EXCEPT !.cached = cmds, !.inn = (cmds # "none"), !.listing = (cmds # "none"), !.dev = "Dev_PathEditUnnoticed"]
      \/ \* chmod does not change the directory mtime: the listing stays as it was
         /\ "Dev_ChmodUnnoticed" \in Deviations
-        /\ LET c == IF Refreshed = {} THEN cmds ELSE FirstHas(Search, NewListed) IN
-           /\ (Refreshed = {} => cmds = FirstHas(Search, listed))
-           /\ c # PosixWhich
-           /\ listed' = NewListed /\ fresh' = [d \in Dirs |-> IF d \in Refreshed THEN TRUE ELSE fresh[d]]
-           /\ cmds' = c
-           /\ res' = [NoRes EXCEPT !.cached = c, !.inn = (c # "none"), !.listing = (c # "none"), !.dev = "Dev_ChmodUnnoticed"]
+        /\ c # PosixWhich
+        /\ listed' = NewListed /\ fresh' = upd /\ cmds' = c
+        /\ res' = [NoRes EXCEPT !.cached = c, !.inn = (c # "none"), !.listing = (c # "none"), !.dev = "Dev_ChmodUnnoticed"]
+     \/ \* an edit of $PATH (reorder / removal) with unchanged directory mtimes is not noticed
+        /\ "Dev_PathEditUnnoticed" \in Deviations
+        /\ Refreshed = {} /\ cmds # c
+        /\ UNCHANGED <<listed, fresh, cmds>>
+        /\ res' = [NoRes EXCEPT !.cached = cmds, !.inn = (cmds # "none"), !.listing = (cmds # "none"), !.dev = "Dev_PathEditUnnoticed"]
 
 \* (an empty $PATH is left out: POSIX leaves its meaning to the implementation)
 Paths == UNION {[1..n -> Entries] : n \in 1..MaxPath}
